@@ -124,6 +124,13 @@ def check_case(case, info=None):
         fails.append((f"{cls}.step raises {type(e).__name__}", f"step raised {type(e).__name__}: {e} [{ic.describe(case)}]"))
         return fails
     err = float(np.max(np.abs(ic.zvec(s2) - z0)))
+    scale0 = max(1.0, float(np.max(np.abs(z0))))
+    if scale > 1e6 * scale0:
+        # numerically unstable trajectory (step size far beyond the stability limit: the state grew by more than
+        # six orders of magnitude): rounding errors are amplified by the square of that growth on the way back, so
+        # "returns to the start up to solver tolerance" cannot be judged in double precision - counted, no verdict
+        info["status"], info["err"], info["scale"] = "unstable", err, scale
+        return fails
     info["status"], info["err"], info["scale"] = "ok", err, scale
     tol = (TOL_EXPLICIT if case["integrator"]["kind"] in ic.EXPLICIT_KINDS else TOL_ITERATIVE) * scale
     if not err <= tol:
